@@ -16,7 +16,8 @@
    text does not identify different spellings, and this Spec does not either: what it
    demands end to end (check_round) is spelling-agnostic - however the crontab is written,
    an enabled binding whose crontab is registered gets exactly one task per round of
-   firings. *)
+   firings.  Firings that coincide while the consumer of the schedule events is busy are
+   firings like all others (check_burst). *)
 From Verif Require Import Common C11_Model.
 
 (* ---- the abstract registry: the set of (crontab, id) pairs added and not removed ---- *)
@@ -41,7 +42,7 @@ Definition induced (hooks : list (list binding)) (o : op) : list smop :=
   | ORemove c i => [Remove c i]
   | OEnable h => map (fun b => Add (b_crontab b) (b_id b)) (nth (N.to_nat h) hooks [])
   | ODisable h => map (fun b => Remove (b_crontab b) (b_id b)) (nth (N.to_nat h) hooks [])
-  | OFire _ | OTick _ | OTickAll => []
+  | OFire _ | OTick _ | OTickAll | OStart _ | ODrain | OStop => []
   end.
 
 (* ---- what a firing must produce ---- *)
@@ -131,23 +132,72 @@ Definition spec_step (hooks : list (list binding)) (st : spec_state) (o : op) : 
    end).
 Definition spec_init (hooks : list (list binding)) : spec_state := ([], map (fun _ => false) hooks).
 
-Fixpoint P_from (i : input) (st : spec_state) (ops : list op) (os : list obs) : bool :=
+(* ---- firings that wait for the consumer ----
+   "Each firing of a crontab produces exactly one task for every enabled schedule binding
+   with that crontab ... and none for other bindings": also when several crontabs (or one
+   crontab several times) fire at the same instant and the consumer of the schedule events
+   is busy.  [cs] = the firings handled by one catching-up of the consumer, a crontab as
+   often as it fired: hook by hook one task per firing and enabled binding with that
+   crontab, nothing else.  (The text does not say which of two states counts when a hook's
+   bindings are enabled or disabled between a firing and its handling: such a catching-up
+   is not judged, see [dirty] below.) *)
+Definition expected_burst (bs : list binding) (enabled : bool) (cs : list ct) : list info :=
+  flat_map (expected_infos bs enabled) cs.
+Fixpoint check_burst (cs : list ct) (hooks : list (list binding)) (en : list bool)
+         (f : list (bool * list info)) : bool :=
+  match hooks, en, f with
+  | [], [], [] => true
+  | bs :: hr, e :: er, x :: fr => check_answer bs (expected_burst bs e cs) x && check_burst cs hr er fr
+  | _, _, _ => false
+  end.
+(* what the cron entries at the positions ns send when they fire, read off the observed
+   cron entries (as for OTick) *)
+Definition fired_of (cr : list (N * ct)) (ns : list N) : list ct :=
+  flat_map (fun n => match nth_error cr (N.to_nat n) with Some (_, c) => [c] | None => [] end) ns.
+
+(* [pend]: the firings (OStart) the consumer has not handled yet; [dirty]: some hook's
+   bindings were enabled or disabled while firings were waiting; [stopped]: the schedule
+   manager was stopped (OStop) - the text says nothing about firings during shutdown: what
+   jobs that run after the context was cancelled produce is compared with the model only *)
+Fixpoint P_from (i : input) (st : spec_state) (pend : list ct) (dirty stopped : bool) (ops : list op) (os : list obs) : bool :=
   match ops, os with
   | [], [] => true
   | o :: ops', ob :: os' =>
       let st' := spec_step (i_hooks i) st o in
-      check_cron (valid_of (i_invalid i)) (i_alphabet i) (fst st') ob
+      let judged (cs : list ct) := dirty || check_burst cs (i_hooks i) (snd st') (o_fire ob) in
+      let stopped' := match o with OStop => true | _ => stopped end in
+      (* which string a cron entry sends is learnt by running its job: not judged after OStop either *)
+      (stopped' || check_cron (valid_of (i_invalid i)) (i_alphabet i) (fst st') ob)
       && match o with
          | OFire c => check_fire c (i_hooks i) (snd st') (o_fire ob)
          (* the n-th cron entry fires: a firing of the crontab it sends *)
          | OTick n => match nth_error (o_cron ob) (N.to_nat n) with
-                      | Some (_, c) => check_fire c (i_hooks i) (snd st') (o_fire ob)
+                      | Some (_, c) => stopped ||
+                                       match pend with
+                                       | [] => check_fire c (i_hooks i) (snd st') (o_fire ob)
+                                       | _ :: _ => judged (pend ++ [c])
+                                       end
                       | None => is_nil (o_fire ob)
                       end
-         | OTickAll => check_round (valid_of (i_invalid i)) (fst st') (i_hooks i) (snd st') (o_fire ob)
+         | OTickAll => stopped ||
+                       match pend with
+                       | [] => check_round (valid_of (i_invalid i)) (fst st') (i_hooks i) (snd st') (o_fire ob)
+                       | _ :: _ => judged (pend ++ map snd (o_cron ob))
+                       end
+         | ODrain => stopped || judged pend
          | _ => true
          end
-      && P_from i st' ops' os'
+      && match o with
+         | OTick n => match nth_error (o_cron ob) (N.to_nat n) with
+                      | Some _ => P_from i st' [] false stopped ops' os'
+                      | None => P_from i st' pend dirty stopped ops' os'
+                      end
+         | OTickAll | ODrain => P_from i st' [] false stopped ops' os'
+         | OStart ns => P_from i st' (pend ++ fired_of (o_cron ob) ns) dirty stopped ops' os'
+         | OEnable _ | ODisable _ => P_from i st' pend (dirty || negb (is_nil pend)) stopped ops' os'
+         | OStop => P_from i st' pend dirty true ops' os'
+         | _ => P_from i st' pend dirty stopped ops' os'
+         end
   | _, _ => false
   end.
-Definition P (i : input) (os : list obs) : bool := P_from i (spec_init (i_hooks i)) (i_ops i) os.
+Definition P (i : input) (os : list obs) : bool := P_from i (spec_init (i_hooks i)) [] false false (i_ops i) os.
